@@ -315,6 +315,12 @@ def inject_falsy(rnd, f, v, p=0.35):
     return v
 
 
+# names (and frequency) of the additional properties given to instances of classes that allow them; a check may widen the
+# pool (the defaults keep the generated stream of the other checks unchanged)
+EXTRA_NAMES = ["x1", "x2", "zz"]
+EXTRA_P = 0.15
+
+
 def gen_instance(rnd, c, ctx, tries=10):
     """A valid instance of the realised class: (kwargs as reified list, real instance) or None."""
     cls = ctx.classes[c["name"]]
@@ -331,8 +337,8 @@ def gen_instance(rnd, c, ctx, tries=10):
                 kw.append((fd["name"], v))
             elif c.get("ignore_none") and rnd.random() < 0.5:
                 kw.append((fd["name"], ("none",)))
-        if c.get("additional") in (None, True) and rnd.random() < 0.15:
-            for xn in rnd.sample(["x1", "x2", "zz"], rnd.randint(1, 2)):
+        if c.get("additional") in (None, True) and rnd.random() < EXTRA_P:
+            for xn in rnd.sample(EXTRA_NAMES, rnd.randint(1, 2)):
                 kw.append((xn, rnd.choice([("int", 0), ("int", 7), ("str", ""), ("str", "extra"), ("bool", False),
                                            ("flt", 1, -1), ("list", [("int", 1), ("str", "a")]), ("list", []),
                                            ("dict", [(("str", "k"), ("int", 1))])])))
